@@ -137,6 +137,7 @@ fn meta(display: &str, raw: &str, module_path: &str, line: u32) -> EntryMeta {
 }
 
 static ARGS3: BenchArgs = BenchArgs::new();
+static ARGS0: BenchArgs = BenchArgs::new();
 
 #[derive(Clone, Debug)]
 struct Item {
@@ -146,8 +147,12 @@ struct Item {
     name: &'static str,
 }
 
-const ITEMS: [Item; 8] = [
+const ITEMS: [Item; 10] = [
+    // (kind 3: a benchmark whose argument list is empty - it has no case and is never shown; it is
+    // registered ahead of its siblings, so that whatever the walk keeps per node is stale or not)
+    Item { kind: 3, module: "c", name: "e0" },
     Item { kind: 0, module: "c", name: "x" },
+    Item { kind: 3, module: "c::m", name: "e0" },
     Item { kind: 0, module: "c::m", name: "x" },
     Item { kind: 0, module: "c::m", name: "y" },
     Item { kind: 1, module: "c", name: "args" },
@@ -172,6 +177,12 @@ fn build_tree(items: &[&Item]) -> (Vec<&'static BenchEntry>, Vec<&'static GroupE
                 for a in ["1", "10", "2"] {
                     cases.push(format!("{display_module}::{}::{a}", it.name));
                 }
+            }
+            3 => {
+                benches.push(&*Box::leak(Box::new(BenchEntry {
+                    meta: meta(it.name, it.name, it.module, 10 + i as u32),
+                    bench: BenchEntryRunner::Args(|| ARGS0.runner(|| [] as [&str; 0], |s| s.to_string(), |_, _| {})),
+                })));
             }
             _ => {
                 benches.push(&*Box::leak(Box::new(BenchEntry {
